@@ -14,6 +14,7 @@ import JsonV.Lemmas.PointerEsc
 import JsonV.Lemmas.PointerOps
 import JsonV.Lemmas.PointerValid
 import JsonV.Lemmas.PointerStack
+import JsonV.Lemmas.PointerUtf8
 
 namespace JsonV.Props.C16
 open JsonV JsonV.Model JsonV.Model.Pointer JsonV.Spec.Pointer JsonV.Lemmas.Pointer
@@ -86,6 +87,21 @@ theorem rebuild_valid (p : Bytes) (h : isValid p = true) (hs : (tokens p).map sa
     (tokens p).foldl appendToken [] = p := by
   rw [foldl_appendToken, List.nil_append, hs, ← Lemmas.Pointer.isValid_render p h]
 
+/-- Go's `range`/`AppendRune` round trip is the identity on well-formed UTF-8 (`utf8.Valid`), so every
+`sanitize` above disappears for the names a decoder or encoder accepts by default. -/
+theorem sanitize_valid (t : Bytes) (h : Utf8.valid t = true) : sanitize t = t := Lemmas.Pointer.sanitize_valid t h
+
+/-- `LastToken (AppendToken p t) = t` for well-formed UTF-8 tokens (DESIGN.md's `ptr_roundtrip`). -/
+theorem ptr_roundtrip_valid (p t : Bytes) (h : Utf8.valid t = true) :
+    lastToken (appendToken p t) = t ∧ parent (appendToken p t) = p := by
+  have := ptr_roundtrip p t
+  rwa [Lemmas.Pointer.sanitize_valid t h] at this
+
+/-- `AppendToken` keeps a pointer valid, for EVERY token (ill-formed bytes are replaced by U+FFFD). -/
+theorem isValid_appendToken (p t : Bytes) (hp : isValid p = true) : isValid (appendToken p t) = true :=
+  Lemmas.Pointer.isValid_appendToken p t hp
+
+example : Utf8.valid [0x61, 0xc3, 0xa9] = true := by decide
 example : isValid [0x2f, 0x61, 0x7e, 0x31] = true := by decide
 example : isValid [0x2f, 0x7e] = false := by decide
 example : isValid [0x2f, 0xff] = false := by decide
